@@ -114,7 +114,7 @@ def tagged_eq(a, b):
 
 
 def cases(rng, tier):
-    N = 1 if tier == "quick" else 8
+    N = 4 if tier == "quick" else 24
     for _ in range(60 * N):
         ms = fieldio.gen_mesh_spec(rng, max_cells=80, nmax=6)
         subs = tc.gen_subs(rng, ms, rng.randint(0, 3))
@@ -142,6 +142,24 @@ def cases(rng, tier):
         ax = rng.randrange(len(cell))
         faces = sorted({Fraction(p[ax]) for _, a, b in subs for p in (a, b)} | {pmin[ax], pmax[ax]})
         pick = lambda: float(rng.choice([rng.choice(faces), pmin[ax] + Fraction(rng.randint(0, 64 * ms["n"][ax]), 64) * cell[ax]]))
+        if rng.random() < 0.25:
+            # integer-typed corners of region AND subregions (Python ints), two or four cells per unit along the selected
+            # axis: the faces a range selection clips the subregions to are non-integers
+            nd = len(cell)
+            ip = [rng.randint(-9, 9) for _ in range(nd)]
+            ie = [rng.randint(2, 3 if nd > 2 else 4) for _ in range(nd)]
+            fac = [rng.choice([1, 2]) for _ in range(nd)]
+            fac[ax] = rng.choice([2, 4])
+            ms = dict(p1=[float(a) for a in ip], p2=[float(a + e) for a, e in zip(ip, ie)], n=[e * k for e, k in zip(ie, fac)],
+                      dims=ms["dims"], bc="", intcorners=True)
+            subs = []
+            for j in range(rng.randint(1, 3)):
+                lo = [rng.randint(0, e - 1) for e in ie]
+                hi = [rng.randint(l + 1, e) for l, e in zip(lo, ie)]
+                subs.append((f"s{j}", [float(a + l) for a, l in zip(ip, lo)], [float(a + h) for a, h in zip(ip, hi)]))
+            q = lambda: float(ip[ax] + Fraction(rng.randint(0, 16 * ie[ax]), 16))
+            yield dict(kind="sel", mesh=ms, subs=subs, ax=ax, rng=sorted([q(), q()]))
+            continue
         if rng.random() < 0.5:
             yield dict(kind="sel", mesh=ms, subs=subs, ax=ax, x=(None if rng.random() < 0.2 else pick()))
         else:
